@@ -29,6 +29,7 @@ class Plan:
         self.on_event = None       # optional online monitor called right before every event
         self.raised_exc = None     # the OSError instance raised in 'raise' mode
         self.fired_in_chain_build = False
+        self.sticky = None
 
     def ev(self, kind, detail=''):
         self.n += 1
@@ -40,10 +41,18 @@ class Plan:
                 self.in_shim -= 1
         if self.mode == 'record':
             self.trace.append((kind, str(detail)[-60:]))
+        if self.mode == 'raise_persistent' and self.sticky and self.sticky in str(detail):
+            # the fault is persistent: every later operation on the same file fails as well (retries do not help)
+            raise OSError(errno.EIO, 'injected persistent I/O error before %s' % kind)
         if self.at is not None and self.n == self.at and self.fired is None:
             self.fired = (kind, str(detail)[-60:])
             if self.mode == 'kill':
                 os._exit(137)
+            if self.mode == 'raise_persistent':
+                base = os.path.basename(str(detail).split('[')[0].split('->')[0])
+                self.sticky = base or None
+                self.raised_exc = OSError(errno.EIO, 'injected persistent I/O error before %s' % kind)
+                raise self.raised_exc
             if self.mode == 'raise':
                 fr = sys._getframe(1)
                 while fr is not None:       # was the flow still being chained (step construction)?
